@@ -279,7 +279,7 @@ pub fn run(args: &[String]) -> ! {
                remove-last; some by a wrong signer. Oracle: CometBFT model fold of every returned \
                batch; model == stored set and stored count after every commit. Non-trivial: a block \
                whose transactions name the same key at least twice and at least one non-empty batch",
-        cases_quick: 800,
+        cases_quick: 1400,
         cases_thorough: 20_000,
         shards: 12,
         min_nontrivial: 0.1,
